@@ -112,6 +112,68 @@ def _bad_keys(exp, obs):
     return bad
 
 
+def _rows_sorted(a):
+    return a[np.lexsort(a.T[::-1])]
+
+
+def _identity_kind(ref, X):
+    """"same" (array-equal), "row_permuted" (same multiset of rows), "proportional" (same distinct rows,
+    multiplicities in the ratio of the sizes: every histogram of X is an exact multiple of the reference's,
+    so the normalised histograms coincide bit for bit) or None."""
+    if np.array_equal(ref, X):
+        return "same"
+    if ref.shape[1] != X.shape[1]:
+        return None
+    a, b = ref.mean(axis=0), X.mean(axis=0)
+    if not np.all(np.abs(a - b) <= 1e-9 * np.maximum(np.abs(a), np.abs(b)) + 1e-300):
+        return None  # cheap screen: equal multisets up to multiplicity have equal column means
+    if len(ref) == len(X):
+        return "row_permuted" if np.array_equal(_rows_sorted(ref), _rows_sorted(X)) else None
+    ur, cr = np.unique(ref, axis=0, return_counts=True)
+    ux, cx = np.unique(X, axis=0, return_counts=True)
+    if ur.shape == ux.shape and np.array_equal(ur, ux) and np.array_equal(cx * len(ref), cr * len(X)):
+        return "proportional"
+    return None
+
+
+def _f32_pair_ambiguous(ref, X):
+    """Could float32 binning (numpy bins float32 data with float32 edges) count differently from exact
+    arithmetic?  Only if every value is float32-representable (otherwise one of the frames is float64 and
+    numpy promotes the edges to float64, like the specification) and some value lies within 1e-4 of the
+    range of an interior edge whose float32 or float64 linspace value is not the exact rational edge."""
+    from fractions import Fraction
+
+    bins = math.isqrt(len(ref))
+    if bins < 2:
+        return False
+    for f in range(ref.shape[1]):
+        col = np.concatenate([ref[:, f], X[:, f]])
+        if not np.array_equal(col.astype(np.float32).astype(float), col):
+            continue
+        lo, hi = float(col.min()), float(col.max())
+        if lo == hi:
+            continue
+        e64 = np.linspace(lo, hi, bins + 1)
+        e32 = np.linspace(np.float32(lo), np.float32(hi), bins + 1, dtype=np.float32)
+        for k in range(1, bins):
+            exact = Fraction(lo) + (Fraction(hi) - Fraction(lo)) * k / bins
+            if Fraction(float(e64[k])) == exact and Fraction(float(e32[k])) == exact:
+                continue
+            if np.any(np.abs(col - float(exact)) < 1e-4 * (hi - lo)):
+                return True
+    return False
+
+
+def _f32_ambiguous(model0, X, detect_batch):
+    pairs = []
+    ref = model0.ref
+    if model0.state == "drift" and detect_batch == 1:
+        h = len(ref) // 2
+        pairs.append((ref[:h], ref[h:]))
+    pairs.append((ref, X))
+    return any(_f32_pair_ambiguous(a, b) for a, b in pairs)
+
+
 # --------------------------------------------------------------------------- system
 class HDMSystem(System):
     def __init__(self, name, det_cls, features):
@@ -138,6 +200,31 @@ class HDMSystem(System):
             return pd.DataFrame(arr, columns=cols)
         return arr
 
+    # -- the batch behind a menu index (overridden by the round-3 family system)
+    def _data(self, cfg, bi):
+        """float64 array of the values handed to the detector (what the specification sees)"""
+        return self.menu[bi]
+
+    def _obj(self, cfg, bi):
+        """the object actually handed to the detector"""
+        return self._wrap(cfg, self.menu[bi])
+
+    def _bname(self, cfg, bi):
+        return NAMES[bi]
+
+    def _known_defect(self, cfg, n_rows_to_split):
+        """(sub, sig, text) when an exception is explained by a catalogued call-site class, else None"""
+        if cfg["params"]["detect_batch"] == 1 and n_rows_to_split == 2:
+            return (
+                "HDM-detect_batch1-two-row-reference",
+                " -- detect_batch=1 splits a 2-row reference into 1 + 1 rows and feeds the 1-row half "
+                "through the public input validation, which refuses it",
+            )
+        return None
+
+    def _family(self, cfg, ctx, bi, X, ref_before, model0, model, exp, obs):
+        """coverage counters of the round-3 families (none for the original menu)"""
+
     def init(self, cfg):
         kw = self._params(cfg)
         # the initial set_reference is executed lazily by the first step, so that a disagreement
@@ -146,11 +233,14 @@ class HDMSystem(System):
 
     def _start(self, cfg, state):
         det, model = state["det"], state["model"]
-        r0 = self.menu[cfg["ref0"]]
+        r0 = self._data(cfg, cfg["ref0"])
         try:
-            det.set_reference(self._wrap(cfg, r0))
+            det.set_reference(self._obj(cfg, cfg["ref0"]))
         except Exception as e:  # noqa: BLE001
-            raise Violation("%s-exception" % self.name, "initial set_reference raised %r" % e, observed=repr(e))
+            kd = self._known_defect(cfg, len(r0))
+            raise Violation(kd[0] if kd else "%s-exception" % self.name,
+                            "initial set_reference(%s) raised %r%s" % (self._bname(cfg, cfg["ref0"]), e, kd[1] if kd else ""),
+                            observed=repr(e))
         exp = model.set_reference(r0)
         obs = hdm_obs(det)
         bad = _bad_keys(exp, obs)
@@ -158,13 +248,13 @@ class HDMSystem(System):
             raise Violation(
                 "%s-set_reference" % self.name,
                 "after the initial set_reference(%s) the detector disagrees with the specification on %s"
-                % (NAMES[cfg["ref0"]], bad),
+                % (self._bname(cfg, cfg["ref0"]), bad),
                 expected=exp, observed=obs,
             )
         state["ready"] = True
 
     def alphabet(self, cfg, state, pos):
-        evs = [["u", i] for i in range(len(self.menu))]
+        evs = [["u", i] for i in cfg.get("alpha", range(len(self.menu)))]
         if state["nsetref"] < cfg.get("max_setref", 0):
             evs += [["r", i] for i in cfg.get("setref_menu", [])]
         return evs
@@ -172,7 +262,17 @@ class HDMSystem(System):
     # -- one event
     def step(self, cfg, state, ev, pos, ctx):
         kind, bi = ev[0], int(ev[1])
-        X = self.menu[bi]
+        X = self._data(cfg, bi)
+        bname = self._bname(cfg, bi)
+        state["last"] = None
+        prev_kind, state["prev_kind"] = state.get("prev_kind"), kind
+        if cfg.get("f32_guard") and cfg["params"]["detect_batch"] == 1:
+            # detect_batch=1 compares the two halves of a new reference with each other
+            for arr in ([] if state["ready"] else [self._data(cfg, cfg["ref0"])]) + ([X] if kind == "r" else []):
+                if _f32_pair_ambiguous(arr[: len(arr) // 2], arr[len(arr) // 2:]):
+                    ctx.count("f32_edge_ambiguous_steps_not_judged")
+                    ctx.terminal = True
+                    return {}
         if not state["ready"]:
             self._start(cfg, state)
             if state["model"].db == 1:
@@ -184,14 +284,16 @@ class HDMSystem(System):
 
         if kind == "r":
             used = model0.used
+            was_drift = model0.state == "drift"
             stale = model0.total != model0.last_drift_index
             try:
                 seed_step(ctx.seed, sid, pos)
-                det.set_reference(self._wrap(cfg, X))
+                det.set_reference(self._obj(cfg, bi))
             except Exception as e:  # noqa: BLE001
+                kd = self._known_defect(cfg, len(X))
                 raise Violation(
-                    "%s-exception" % self.name,
-                    "set_reference(%s) raised %r" % (NAMES[bi], e),
+                    kd[0] if kd else "%s-exception" % self.name,
+                    "set_reference(%s) raised %r%s" % (bname, e, kd[1] if kd else ""),
                     observed=repr(e),
                 )
             obs = hdm_obs(det)
@@ -202,7 +304,7 @@ class HDMSystem(System):
                 raise Violation(
                     "%s-set_reference" % self.name,
                     "after set_reference(%s) at call %d the detector disagrees with the specification on %s"
-                    % (NAMES[bi], pos + 1, bad),
+                    % (bname, pos + 1, bad),
                     expected=exp, observed=obs,
                 )
             ctx.mark("set_reference_events")
@@ -210,6 +312,14 @@ class HDMSystem(System):
                 ctx.count("set_reference_on_used_detector")
             if stale:
                 ctx.count("set_reference_not_right_after_drift")
+            if pos == 0:
+                ctx.count("set_reference_as_first_call")
+            if prev_kind == "r":
+                ctx.count("set_reference_twice_in_a_row")
+            if was_drift:
+                ctx.count("set_reference_right_after_a_drift_report")
+            if pos == cfg.get("len", -1) - 1:
+                ctx.count("set_reference_as_last_call")
             if exp.get("_proxy"):
                 ctx.count("proxy_batches")
             self._bounds(obs, divname)
@@ -221,14 +331,23 @@ class HDMSystem(System):
         ref_before = model0.ref
         try:
             seed_step(ctx.seed, sid, pos)
-            det.update(self._wrap(cfg, X))
+            det.update(self._obj(cfg, bi))
         except Exception as e:  # noqa: BLE001
+            # a pending re-initialisation (previous call reported drift) splits the drifted batch
+            kd = self._known_defect(cfg, len(model0.ref) if model0.state == "drift" else -1)
             raise Violation(
-                "%s-exception" % self.name,
-                "update(%s) at call %d raised %r" % (NAMES[bi], pos + 1, e),
+                kd[0] if kd else "%s-exception" % self.name,
+                "update(%s) at call %d raised %r%s" % (bname, pos + 1, e, kd[1] if kd else ""),
                 observed=repr(e),
             )
         obs = hdm_obs(det)
+        if cfg.get("f32_guard") and _f32_ambiguous(model0, X, cfg["params"]["detect_batch"]):
+            # float32 frames are binned by numpy in float32: where a value lies on / next to an interior
+            # edge that float32 or float64 cannot represent exactly, the two precisions may legitimately
+            # count differently -- such a step is not judged and closes the branch (counted)
+            ctx.count("f32_edge_ambiguous_steps_not_judged")
+            ctx.terminal = True
+            return obs
 
         def call(m, D):
             return m.update(X, D, reseed=lambda: seed_step(ctx.seed, sid, pos))
@@ -236,6 +355,18 @@ class HDMSystem(System):
         model, exp, ok = lockstep(
             model0, call, lambda e: not _bad_keys(e, obs), stats=ctx.stats
         )
+        if not ok and cfg.get("asym") and "_e0" in exp:
+            # the order of the two histograms inside a bootstrap pair is not documented; with an
+            # asymmetric user function either order is accepted for epsilon_0 (and only there)
+            import copy
+
+            m2 = copy.deepcopy(model0)
+            m2.boot_swap = True
+            model2, exp2, ok2 = lockstep(m2, call, lambda e: not _bad_keys(e, obs))
+            if ok2:
+                model2.boot_swap = False
+                model, exp, ok = model2, exp2, True
+                ctx.count("bootstrap_pair_order_swapped_accepted")
         if not ok:
             bad = _bad_keys(exp, obs)
             sub = "%s-spec" % self.name
@@ -269,7 +400,7 @@ class HDMSystem(System):
             raise Violation(
                 sub,
                 "%s disagrees with its specification on %s after call %d (%s %s)%s"
-                % (self.name, bad, pos + 1, "update", NAMES[bi], what),
+                % (self.name, bad, pos + 1, "update", bname, what),
                 expected={k: v for k, v in exp.items()},
                 observed=obs,
                 sig=sig,
@@ -284,16 +415,21 @@ class HDMSystem(System):
                 if v is None or not (0.0 <= v <= _bound(divname) * (1 + 1e-12) + 1e-15):
                     raise Violation("%s-bound" % self.name, "per-feature distance %r outside [0, bound]" % v,
                                     expected=[0, _bound(divname)], observed=v)
-        if np.array_equal(ref_before, X):
-            ctx.count("identity_checks")
+        ik = _identity_kind(ref_before, X)
+        if ik is not None:
+            ctx.count("identity_checks" if ik == "same" else "identity_checks_" + ik)
             if not (abs(d) <= 1e-12):
                 raise Violation(
                     "%s-identity" % self.name,
-                    "distance of a batch identical to the reference is %r, not 0" % d,
+                    "distance of a batch identical to the reference%s is %r, not 0"
+                    % ({"same": "", "row_permuted": " up to row order",
+                        "proportional": " up to row multiplicities (every reference row repeated equally often)"}[ik], d),
                     expected=0.0, observed=d,
                 )
-        if len(ref_before) == len(X):
+        if len(ref_before) == len(X) and not cfg.get("asym"):
             self._symmetry(cfg, ref_before, X, d, ctx)
+        self._family(cfg, ctx, bi, X, ref_before, model0, model, exp, obs)
+        state["last"] = {"dof": exp.get("_dof"), "sd": exp.get("_sd")}
 
         # ---- coverage counters
         if exp["_proxy"]:
@@ -373,6 +509,267 @@ SYSTEMS = {
 }
 
 
+# =========================================================================== round 3: wider families
+# (EXTENDING.md)  Every family is a set of additional tasks over its own batch menu; the oracle is the
+# same lock-step specification and the same axioms.  A menu entry says which values the detector gets
+# ("a", float64: what the specification sees), in which dtype and in which container.
+def asym_hist(reference_hist, test_hist):
+    """User-supplied *asymmetric* function: mass the reference has in excess of the test counts fully,
+    mass the test has in excess counts a quarter.  Non-negative, 0 iff the normalised histograms are equal,
+    <= sqrt(1.25), invariant under bin permutations, and asym(r, t) != asym(t, r) in general (>= 3 bins)."""
+    r = np.asarray(reference_hist, dtype=float)
+    t = np.asarray(test_hist, dtype=float)
+    x = r / r.sum() - t / t.sum()
+    return float(np.sqrt(np.sum(np.maximum(x, 0.0) ** 2) + 0.25 * np.sum(np.maximum(-x, 0.0) ** 2)))
+
+
+DIVS["asym"] = asym_hist
+
+DF_LABELS = {1: [7], 2: [1, 0], 3: [2, 0, 1]}  # integer labels that are *not* the positions
+
+
+def _spec(name, a, dtype="f8", cont="nd", **tags):
+    a = np.array(a, dtype=float)
+    if a.ndim == 1:
+        a = a.reshape(-1, 1)
+    if dtype == "f4":
+        assert np.array_equal(a.astype(np.float32).astype(float), a), name
+    if dtype == "i8":
+        assert np.array_equal(a.astype(np.int64).astype(float), a), name
+    d = {"name": name, "a": a, "dtype": dtype, "cont": cont}
+    d.update(tags)
+    return d
+
+
+def _materialise(spec):
+    a = spec["a"]
+    arr = a.astype({"f8": np.float64, "f4": np.float32, "i8": np.int64}[spec["dtype"]])
+    c = spec["cont"]
+    if c == "nd":
+        return arr
+    if c == "nd1":
+        return arr[:, 0].copy()
+    if c == "list":
+        return arr.tolist()
+    if c == "list1":
+        return arr[:, 0].tolist()
+    if c in ("df", "dfi"):
+        n, F = arr.shape
+        idx = None
+        if c == "dfi":  # a non-default row index with a repeated label, not in order
+            idx = [(n - 1 - i) if i != 1 else n - 1 for i in range(n)]
+        return pd.DataFrame(arr, columns=DF_LABELS[F], index=idx)
+    raise ValueError(c)
+
+
+def _with(spec, **kw):
+    d = dict(spec)
+    d.update(kw)
+    return d
+
+
+_perm9 = [4, 8, 0, 6, 2, 7, 1, 5, 3]
+
+
+def _lds(n, off, F, scale=(3.0, 2.0, 1.0), shift=(0.0, 0.0, 0.0), widen=(1.0, 1.0, 1.0)):
+    """n rows of a fixed low-discrepancy sequence (no random numbers), quantised to 1/64 of the range"""
+    alphas = (0.6180339887498949, 0.7548776662466927, 0.5698402909980532)
+    rows = []
+    for k in range(off, off + n):
+        rows.append([
+            (math.floor(((k + 1) * alphas[f]) % 1.0 * 64) / 64.0 - 0.5) * scale[f] * widen[f] + 0.5 * scale[f] + shift[f]
+            for f in range(F)
+        ])
+    return np.array(rows)
+
+
+def _build_fams():
+    F = {}
+    lo4, lo9, sh4, sh9, wd4, wd9 = MENU2
+    # ---- containers: DataFrames with named columns / ndarrays / lists mixed across one history
+    F["cont2"] = [
+        _spec("lo4:dfi", lo4, cont="dfi"), _spec("lo9:list", lo9, cont="list"),
+        _spec("shift4:nd", sh4), _spec("wide9:df", wd9, cont="df"),
+        _spec("lo9:nd", lo9), _spec("lo4:df", lo4, cont="df"), _spec("shift9:list", sh9, cont="list"),
+    ]
+    F["cont1"] = [
+        _spec("lo4:list1", lo4[:, :1], cont="list1"), _spec("lo9:nd1", lo9[:, :1], cont="nd1"),
+        _spec("shift4:df", sh4[:, :1], cont="df"), _spec("wide9:list", wd9[:, :1], cont="list"),
+        _spec("shift9:nd", sh9[:, :1]),
+        _spec("lo9:df", lo9[:, :1], cont="df"), _spec("lo4:nd1", lo4[:, :1], cont="nd1"),
+    ]
+    # ---- dtypes: int64 and float32 batches next to float64 ones (all values multiples of 1/8)
+    i4 = [[0, 1], [1, 0], [2, 2], [3, 1]]
+    i9 = [[0, 2], [1, 0], [3, 1], [2, 2], [0, 1], [3, 0], [1, 2], [2, 1], [1, 1]]
+    h4 = [[0.5, 1.25], [1.5, 0.25], [2.5, 1.75], [2.75, 0.75]]
+    s4 = [[0.125, 0.875], [1.375, 0.375], [2.625, 1.625], [2.875, 1.125]]
+    s9 = [[0.25, 1.75], [1.125, 0.125], [2.25, 1.875], [2.875, 1.25], [0.625, 0.375],
+          [1.625, 1.625], [2.375, 0.25], [0.875, 1.375], [1.875, 0.75]]
+    # float64 values one part in 1e9 below the edges 1.5 / 1 that ranges [0,3] / [0,2] give with 2 bins:
+    # rounding them to float32 moves them across the edge
+    e4 = [[1.5 - 2 ** -30, 1.0 - 2 ** -30], [0.0, 0.0], [3.0, 2.0], [1.0 - 2 ** -30, 1.75]]
+    F["dtype2"] = [
+        _spec("int4", i4, dtype="i8"), _spec("half4:f8", h4), _spec("s4:f4", s4, dtype="f4"),
+        _spec("s9:f4", s9, dtype="f4"), _spec("edge4:f8", e4),
+        _spec("int9", i9, dtype="i8", cont="df"), _spec("s9:f4:df", s9, dtype="f4", cont="df"),
+    ]
+    F["dtype1"] = [_with(x, a=x["a"][:, :1].copy()) for x in F["dtype2"]]
+    # ---- shapes: 3 features, a constant feature, duplicated rows, row-permuted reference, 2-row batches
+    r9c = np.column_stack([lo9, np.ones(9)])
+    r4c = np.column_stack([lo4, np.ones(4)])
+    F["shape3"] = [
+        _spec("perm9c", r9c[_perm9], const=1), _spec("dup18c", np.repeat(r9c, 2, axis=0), const=1),
+        _spec("two:c", [[0.3, 0.2, 1.0], [2.8, 1.8, 1.0]], const=1),
+        _spec("vary4", np.column_stack([sh4, [0.5, 1.5, 1.0, 0.75]])),
+        _spec("two:far", [[7.0, 7.5, 3.0], [8.0, 9.0, 3.0]]),
+        _spec("r9c", r9c, const=1), _spec("r4c", r4c, const=1), _spec("two:ref", [[0.0, 1.0, 1.0], [3.0, 0.5, 1.0]], const=1),
+    ]
+    c = lo9[:, :1]
+    F["shape1"] = [
+        _spec("const4", [1.0] * 4, const=1), _spec("const2", [1.0, 1.0], const=1), _spec("two:other", [2.0, 2.5]),
+        _spec("perm9", c[_perm9]), _spec("dup18", np.repeat(c, 2, axis=0)),
+        _spec("lo9", c), _spec("const9", [1.0] * 9, const=1),
+    ]
+    # ---- scales: level 2^20 (~1e6) with spread ~0.05, and scale 2^-20 (~1e-6)
+    for key, (mul, add) in {"level": (2.0 ** -6, 2.0 ** 20), "tiny": (2.0 ** -20, 0.0)}.items():
+        F[key + "2"] = [_spec("%s:%s" % (n, key), m * mul + add) for n, m in
+                        zip(("lo4", "lo9", "shift4", "wide9"), (lo4, lo9, sh4, wd9))]
+        F[key + "1"] = [_with(x, a=x["a"][:, :1].copy()) for x in F[key + "2"]]
+    # ---- larger batches (20..40 rows): floor(sqrt(n_ref)) runs through 4, 6, 8, 10, 11, 12 ... as the
+    #      reference grows
+    ref23 = _lds(23, 0, 2)
+    F["large2"] = [
+        _spec("ref23", ref23), _spec("st30", _lds(30, 23, 2)), _spec("st25", _lds(25, 53, 2)),
+        _spec("st40", _lds(40, 78, 2)), _spec("st20", _lds(20, 118, 2)), _spec("st35", _lds(35, 138, 2)),
+        _spec("st31", _lds(31, 173, 2)),
+        _spec("shift20", _lds(20, 204, 2, shift=(1.25, 0.25, 0))), _spec("wide40", _lds(40, 224, 2, widen=(1.0, 2.5, 1))),
+        _spec("perm23", ref23[::-1][np.r_[7:23, 0:7]]), _spec("dup46", np.repeat(ref23, 2, axis=0)),
+    ]
+    F["large1"] = [_with(x, a=x["a"][:, :1].copy()) for x in F["large2"]]
+    # ---- identity: references of 20..40 rows (bin fractions k/n that are not dyadic), the same rows in
+    #      another order and every row twice
+    for n in range(20, 41):
+        r = _lds(n, 3 * n, 2, scale=(3.0, 2.0, 1.0))
+        F["ident%d" % n] = [_spec("ref%d" % n, r), _spec("perm%d" % n, r[::-1][np.r_[5:n, 0:5]]),
+                            _spec("dup%d" % (2 * n), np.repeat(r, 2, axis=0))]
+    # ---- the original menu (parameter families use it unchanged)
+    F["menu2"] = [_spec(n, m) for n, m in zip(NAMES, MENU2)]
+    F["menu1"] = [_spec(n, m) for n, m in zip(NAMES, MENU1)]
+    # equal sizes for the interleaved detectors, so that their degrees of freedom coincide
+    F["multi1"] = [_spec("lo4", lo4[:, :1]), _spec("shift4", sh4[:, :1]), _spec("wide4", wd4[:, :1]),
+                   _spec("mid4", [[0.5], [1.5], [2.5], [1.0]])]
+    return F
+
+
+FAMS = _build_fams()
+
+
+class HDMFamSystem(HDMSystem):
+    """Same driver and oracle as HDMSystem; batches come from the menu named by cfg["fam"]."""
+
+    def _wrap(self, cfg, arr):  # role-swapped twin: plain float64 arrays
+        return np.array(arr, dtype=float)
+
+    def _data(self, cfg, bi):
+        return FAMS[cfg["fam"]][bi]["a"]
+
+    def _obj(self, cfg, bi):
+        return _materialise(FAMS[cfg["fam"]][bi])
+
+    def _bname(self, cfg, bi):
+        return FAMS[cfg["fam"]][bi]["name"]
+
+    def _family(self, cfg, ctx, bi, X, ref_before, model0, model, exp, obs):
+        spec = FAMS[cfg["fam"]][bi]
+        tag = cfg["tag"]
+        p = cfg["params"]
+        drift = obs["state"] == "drift"
+        ctx.count("fam:%s:updates" % tag)
+        if drift and p["detect_batch"] == 3:
+            ctx.count("fam:%s:drifts_detect_batch3" % tag)  # no bootstrap involved: independent of the seed
+        if drift:
+            ctx.count("fam:%s:drifts" % tag)
+        if spec["cont"] in ("df", "dfi"):
+            ctx.count("dataframe_batches")
+        if spec["cont"] in ("list", "list1"):
+            ctx.count("list_batches")
+        if spec["cont"] in ("nd1", "list1"):
+            ctx.count("one_dimensional_batches")
+        if spec["dtype"] == "i8":
+            ctx.count("integer_batches")
+            if not np.array_equal(ref_before, np.round(ref_before)):
+                ctx.count("integer_batch_on_fractional_reference")
+        if spec["dtype"] == "f4":
+            ctx.count("float32_batches")
+        if spec.get("const"):
+            if any(ref_before[:, f].min() == ref_before[:, f].max() == X[:, f].min() == X[:, f].max()
+                   for f in range(X.shape[1])):
+                ctx.count("constant_feature_steps")
+        if len(X) == 2:
+            ctx.count("two_row_batches")
+            if drift:
+                ctx.count("two_row_batches_reported_drift")
+        if len(ref_before) == 2:
+            ctx.count("two_row_reference_steps")
+        if "beta" in exp and exp["_bins"] >= 6:
+            ctx.count("decisions_with_ge6_bins")
+        ctx.count("bins:%d" % exp["_bins"])
+        if "_sd" in exp and exp["_sd"] > 0:
+            ctx.count("fam:%s:thresholds_with_positive_deviation" % tag)
+        if "_e0" in exp and p["subsets"] > exp["_n_ref_before"]:
+            ctx.count("bootstrap_with_more_subsets_than_reference_rows")
+        if "_e0" in exp and p["subsets"] == 2:
+            ctx.count("bootstrap_with_2_subsets")
+        if cfg.get("asym"):
+            m = model
+            bins = exp["_bins"]
+            los = [min(ref_before[:, f].min(), X[:, f].min()) for f in range(X.shape[1])]
+            his = [max(ref_before[:, f].max(), X[:, f].max()) for f in range(X.shape[1])]
+            hr, ht = m._hists(ref_before, los, his, bins), m._hists(X, los, his, bins)
+            if any(abs(asym_hist(a, b) - asym_hist(b, a)) > 1e-6 for a, b in zip(hr, ht)):
+                ctx.count("asymmetric_function_order_matters")
+
+
+class MultiSystem(System):
+    """Several detectors with different parameters alive at once; every event is one call on one of them
+    (state shared between instances -- class attributes, module globals, mutable defaults -- shows as a
+    disagreement of the called detector with its own specification)."""
+
+    name = "Multi"
+
+    def init(self, cfg):
+        return {"subs": [SYSTEMS[d["system"]].init(d) for d in cfg["dets"]], "tcrit": {}}
+
+    def alphabet(self, cfg, state, pos):
+        return [["u", k, b] for k in range(len(cfg["dets"])) for b in cfg["alpha"]]
+
+    def step(self, cfg, state, ev, pos, ctx):
+        kind, k, b = ev[0], int(ev[1]), int(ev[2])
+        sub = cfg["dets"][k]
+        st = state["subs"][k]
+        obs = SYSTEMS[sub["system"]].step(sub, st, [kind, b], pos, ctx)
+        ctx.count("multi_calls")
+        others = [j for j, s2 in enumerate(state["subs"]) if j != k and s2["ready"]]
+        if others:
+            ctx.count("multi_calls_while_another_detector_is_in_use")
+        last = st.get("last") or {}
+        if kind == "u" and sub["params"]["statistic"] == "tstat" and last.get("sd"):
+            seen = state["tcrit"].setdefault(str(last["dof"]), [])
+            if any(j != k and sg != sub["params"]["significance"] for j, sg in seen):
+                ctx.count("multi_t_quantile_same_dof_as_other_detector_with_other_significance")
+            seen.append((k, sub["params"]["significance"]))
+        return {"det": k, "obs": obs}
+
+
+SYSTEMS.update({
+    "F-HDDDM1": HDMFamSystem("F-HDDDM1", HDDDM, 1),
+    "F-HDDDM2": HDMFamSystem("F-HDDDM2", HDDDM, 2),
+    "F-HDDDM3": HDMFamSystem("F-HDDDM3", HDDDM, 3),
+    "F-CDBD": HDMFamSystem("F-CDBD", CDBD, 1),
+    "Multi": MultiSystem(),
+})
+
+
 # --------------------------------------------------------------------------- configurations
 STATS = [("tstat", 0.05), ("tstat", 0.5), ("stdev", 0.5), ("stdev", 2)]
 ROTA = ["HDDDM2", "HDDDM1", "HDDDM2", "CDBD"]  # the 2-feature system gets half of the combinations
@@ -428,6 +825,169 @@ def _drift_prefix(cfg):
     return [_U(cfg["ref0"]), _U(cfg["ref0"]), _U(far)]
 
 
+# --------------------------------------------------------------------------- round-3 tasks
+def _P(db, stat, sig, div, subsets=5):
+    return {"detect_batch": db, "statistic": stat, "significance": sig, "divergence": div, "subsets": subsets}
+
+
+def _fcfg(cid, tag, fam, params, ref0, alpha, **kw):
+    cfg = {"id": "r3-" + cid, "params": params, "ref0": ref0, "fam": fam, "tag": tag, "alpha": list(alpha)}
+    cfg.update(kw)
+    return cfg
+
+
+def _flabel(sysname, cfg, extra):
+    p = cfg["params"]
+    return "%s|%s|fam=%s|db%d-%s%s-%s-s%d-ref=%s|%s" % (
+        sysname, cfg["id"], cfg["tag"], p["detect_batch"], p["statistic"], p["significance"], p["divergence"],
+        p["subsets"], FAMS[cfg["fam"]][cfg["ref0"]]["name"], extra,
+    )
+
+
+def _fdfs(sysname, cfg, depth, extra, prefix=()):
+    c = dict(cfg)
+    c["len"] = len(prefix) + depth
+    n = len(c["alpha"]) + len(c.get("setref_menu", ()))
+    return {"system": sysname, "cfg": c, "prefix": [list(e) for e in prefix], "depth": depth,
+            "label": _flabel(sysname, c, extra), "cost": n ** depth, "validate_every": 97}
+
+
+def _fdev(sysname, cfg, default, menu, k, extra):
+    c = dict(cfg)
+    c["len"] = len(default)
+    t = {"system": sysname, "cfg": c, "mode": "dev", "default": [list(e) for e in default],
+         "menu": [list(e) for e in menu], "k": k, "label": _flabel(sysname, c, extra),
+         "cost": (len(default) * len(menu)) ** k * 4, "validate_every": 97}
+    return [t]
+
+
+_ONE = ("F-CDBD", "F-HDDDM1")
+SIG_EXTREMES = [("tstat", 0.001), ("tstat", 0.9), ("stdev", 0), ("stdev", 5)]
+MULTI_DEFAULT = [0, 1, 1, 0, 0]  # per detector: lo4, shift4, shift4, lo4, lo4 (no drift for group A; found by a model-only scan)
+
+
+def _multi_cfg(gid, dets):
+    return {"id": "r3-multi-" + gid, "alpha": [0, 2],
+            "dets": [dict(_fcfg("multi-%s-%d" % (gid, i), "multi", "multi1", p, 0, [0, 1, 2, 3]), system=s)
+                     for i, (s, p) in enumerate(dets)]}
+
+
+MULTI_GROUPS = {
+    # all detect_batch 3 (no random draw anywhere): t quantiles with equal degrees of freedom, different levels
+    "A": [("F-HDDDM1", _P(3, "tstat", 0.05, "H")), ("F-CDBD", _P(3, "tstat", 0.5, "KL")),
+          ("F-HDDDM1", _P(3, "tstat", 0.9, "custom"))],
+    "B": [("F-HDDDM1", _P(1, "tstat", 0.05, "H", 3)), ("F-CDBD", _P(2, "tstat", 0.5, "KL", 5)),
+          ("F-CDBD", _P(3, "stdev", 1, "H"))],
+}
+
+
+def _round3(tier, seed):
+    deep = 0 if tier == "quick" else 1
+    out = []
+    # ---- containers
+    for i, (db, ref0, stat, div) in enumerate([(1, 4, ("stdev", 0.5), "H"), (2, 5, ("tstat", 0.5), "custom"),
+                                               (3, 1, ("stdev", 2), "KL")]):
+        cfg = _fcfg("cont2-%d" % i, "containers", "cont2", _P(db, stat[0], stat[1], div, 3 if db == 1 else 5),
+                    ref0, [0, 1, 2, 3], max_setref=1, setref_menu=[5, 6])
+        out.append(_fdfs("F-HDDDM2", cfg, 4 + deep, "(4u+2r<=1)^%d" % (4 + deep)))
+    for i, (db, ref0, stat, div) in enumerate([(1, 5, ("tstat", 0.5), "KL"), (2, 6, ("stdev", 0.5), "H"),
+                                               (3, 1, ("tstat", 0.05), "KL")]):
+        cfg = _fcfg("cont1-%d" % i, "containers", "cont1", _P(db, stat[0], stat[1], div), ref0, [0, 1, 2, 3, 4])
+        out.append(_fdfs(_ONE[i % 2], cfg, 4 + deep, "5^%d" % (4 + deep)))
+    # ---- dtypes
+    for i, (db, ref0, stat, div) in enumerate([(1, 5, ("stdev", 0.5), "H"), (2, 6, ("tstat", 0.5), "KL"),
+                                               (3, 0, ("stdev", 0.5), "custom"), (3, 3, ("tstat", 0.5), "H")]):
+        cfg = _fcfg("dtype2-%d" % i, "dtypes", "dtype2", _P(db, stat[0], stat[1], div), ref0, [0, 1, 2, 3, 4],
+                    f32_guard=True)
+        out.append(_fdfs("F-HDDDM2", cfg, 4 + deep, "5^%d" % (4 + deep)))
+    for i, (db, ref0, stat, div) in enumerate([(1, 6, ("tstat", 0.5), "KL"), (2, 5, ("stdev", 0.5), "KL"),
+                                               (3, 2, ("stdev", 2), "H")]):
+        cfg = _fcfg("dtype1-%d" % i, "dtypes", "dtype1", _P(db, stat[0], stat[1], div), ref0, [0, 1, 2, 3, 4],
+                    f32_guard=True)
+        out.append(_fdfs(_ONE[i % 2], cfg, 4 + deep, "5^%d" % (4 + deep)))
+    # ---- shapes
+    for i, (db, ref0, stat, div) in enumerate([(3, 5, ("stdev", 0.5), "H"), (2, 5, ("tstat", 0.5), "KL"),
+                                               (1, 5, ("stdev", 2), "custom"), (3, 7, ("tstat", 0.5), "H"),
+                                               (2, 6, ("stdev", 0.5), "H"), (1, 6, ("tstat", 0.05), "H")]):
+        cfg = _fcfg("shape3-%d" % i, "shapes", "shape3", _P(db, stat[0], stat[1], div), ref0, [0, 1, 2, 3, 4])
+        out.append(_fdfs("F-HDDDM3", cfg, 4 + deep, "5^%d" % (4 + deep)))
+    for i, (db, ref0, stat, div) in enumerate([(3, 5, ("stdev", 0.5), "KL"), (2, 6, ("tstat", 0.5), "KL"),
+                                               (1, 5, ("stdev", 0.5), "H"), (2, 1, ("stdev", 2), "KL")]):
+        cfg = _fcfg("shape1-%d" % i, "shapes", "shape1", _P(db, stat[0], stat[1], div), ref0, [0, 1, 2, 3, 4])
+        out.append(_fdfs(_ONE[i % 2], cfg, 4 + deep, "5^%d" % (4 + deep)))
+    # a 2-row initial reference with detect_batch = 1 (documented minimum size; one call)
+    cfg = _fcfg("shape3-two-db1", "shapes", "shape3", _P(1, "tstat", 0.05, "H"), 7, [0, 2])
+    out.append(_fdfs("F-HDDDM3", cfg, 1, "2^1"))
+    # ---- scales
+    n = 0
+    for key in ("level", "tiny"):
+        for db, stat, div in [(1, ("stdev", 0.5), "H"), (2, ("tstat", 0.5), "custom"), (3, ("stdev", 0.5), "KL")]:
+            cfg = _fcfg("%s2-%d" % (key, db), "scale-" + key, key + "2", _P(db, stat[0], stat[1], div), n % 2,
+                        [0, 1, 2, 3])
+            out.append(_fdfs("F-HDDDM2", cfg, 4 + deep, "4^%d" % (4 + deep)))
+            n += 1
+        db = 3 if key == "level" else 2
+        cfg = _fcfg("%s1" % key, "scale-" + key, key + "1", _P(db, "tstat", 0.5, "KL"), 1, [0, 1, 2, 3])
+        out.append(_fdfs("F-CDBD", cfg, 4 + deep, "4^%d" % (4 + deep)))
+    # ---- larger batches, deviation-bounded
+    default = [["u", i] for i in (1, 2, 3, 4, 5, 6)]
+    menu = [["u", i] for i in (7, 8, 9, 10)]
+    for i, (sysname, fam, db, stat, div) in enumerate([
+        ("F-HDDDM2", "large2", 3, ("stdev", 2), "H"), ("F-HDDDM2", "large2", 2, ("tstat", 0.05), "H"),
+        ("F-HDDDM2", "large2", 1, ("stdev", 0.5), "custom"), ("F-CDBD", "large1", 3, ("tstat", 0.5), "KL"),
+        ("F-CDBD", "large1", 2, ("stdev", 2), "KL"),
+    ]):
+        cfg = _fcfg("large-%d" % i, "large", fam, _P(db, stat[0], stat[1], div), 0, [])
+        out += _fdev(sysname, cfg, default, menu, 2 + deep, "6 default + 4 alternatives, k<=%d" % (2 + deep))
+    # ---- identity on 20..40-row references, every divergence
+    for n in range(20, 41):
+        for div in ("H", "KL", "custom", "asym"):
+            cfg = _fcfg("ident%d-%s" % (n, div), "identity", "ident%d" % n, _P(3, "stdev", 0.5, div), 0, [1, 2],
+                        asym=(div == "asym"))
+            out.append(_fdfs("F-HDDDM2", cfg, 3, "2^3"))
+    # ---- significance extremes
+    for i, (stat, sig) in enumerate(SIG_EXTREMES):
+        for db in (1, 2, 3):
+            j = 3 * i + db
+            sysname = ("F-HDDDM2", "F-CDBD", "F-HDDDM1")[j % 3]
+            cfg = _fcfg("sig-%d-%d" % (i, db), "significance", "menu2" if sysname == "F-HDDDM2" else "menu1",
+                        _P(db, stat, sig, ("H", "KL", "custom")[(j // 3) % 3], 3 if j % 2 else 5), j % 2, [0, 2, 5])
+            out.append(_fdfs(sysname, cfg, 6 + deep, "3^%d" % (6 + deep)))
+    # ---- subsets 2 and subsets larger than the reference has rows
+    for i, (db, subsets) in enumerate([(1, 2), (2, 2), (1, 12), (2, 12)]):
+        sysname = ("F-HDDDM2", "F-CDBD")[i % 2]
+        cfg = _fcfg("subsets-%d" % i, "subsets", "menu2" if sysname == "F-HDDDM2" else "menu1",
+                    _P(db, ("stdev", "tstat")[i % 2], 0.5, ("H", "KL")[i % 2], subsets), 0, range(6))
+        out.append(_fdfs(sysname, cfg, 3 + deep, "6^%d" % (3 + deep)))
+    # ---- set_reference at every position (also first, last, twice in a row, right after a drift)
+    for i, (db, stat) in enumerate([(db, st) for db in (1, 2, 3) for st in (("stdev", 0.5), ("tstat", 0.5))]):
+        for v, dflt in enumerate(([0, 1, 3, 0, 5, 1], [2, 2, 0, 0, 1, 4])):
+            sysname = ("F-HDDDM2", "F-CDBD")[(i + v) % 2]
+            cfg = _fcfg("setref-%d-%d" % (i, v), "set_reference", "menu2" if sysname == "F-HDDDM2" else "menu1",
+                        _P(db, stat[0], stat[1], ("H", "KL")[(i + v) % 2], 3), v, [])
+            out += _fdev(sysname, cfg, [["u", b] for b in dflt], [["r", 0], ["r", 3]], 2 + deep,
+                         "6 updates, set_reference at <=%d positions" % (2 + deep))
+    # ---- asymmetric user function
+    for i, (sysname, db, stat) in enumerate([("F-HDDDM2", 3, ("stdev", 0.5)), ("F-HDDDM2", 2, ("tstat", 0.5)),
+                                             ("F-HDDDM2", 1, ("stdev", 2)), ("F-CDBD", 3, ("tstat", 0.5))]):
+        cfg = _fcfg("asym-%d" % i, "asymmetric", "menu2" if sysname == "F-HDDDM2" else "menu1",
+                    _P(db, stat[0], stat[1], "asym", 3), 1, [0, 1, 2, 5], asym=True)
+        out.append(_fdfs(sysname, cfg, 4 + deep, "4^%d" % (4 + deep)))
+    # ---- several detectors alive at once, calls interleaved
+    for gid, dets in MULTI_GROUPS.items():
+        cfg = _multi_cfg(gid, dets)
+        default = [["u", p % 3, MULTI_DEFAULT[p // 3]] for p in range(15)]
+        allev = [["u", k, b] for k in range(3) for b in (0, 1, 2, 3)]
+        t = {"system": "Multi", "cfg": cfg, "mode": "dev", "default": default, "menu": allev, "k": 1 + deep,
+             "label": "Multi|%s|fam=multi|round-robin 15 calls, <=%d deviations (other detector / other batch)"
+             % (cfg["id"], 1 + deep), "cost": 3000, "validate_every": 23}
+        out.append(t)
+        out.append({"system": "Multi", "cfg": cfg, "prefix": default[:9], "depth": 3 + deep,
+                    "label": "Multi|%s|fam=multi|9 round-robin calls + (3 detectors x 2 batches)^%d" % (cfg["id"], 3 + deep),
+                    "cost": 6 ** (3 + deep) * 3, "validate_every": 23})
+    return out
+
+
 def tasks(tier, seed):
     out = []
     combos = _combos()
@@ -447,7 +1007,7 @@ def tasks(tier, seed):
                 s2 = ROTA[(j // 3 + seed) % 4]
                 out.append(_task(s2, cfg, [_U(1 - cfg["ref0"])], 4, "pre1+setref<=1", 3 * 6 ** 4,
                                  max_setref=1, setref_menu=[0, 3]))
-        return out
+        return out + _round3(tier, seed)
     # thorough
     for j, params in enumerate(combos):
         cfg = _cfg(j, params)
@@ -470,7 +1030,7 @@ def tasks(tier, seed):
             for a in range(6):
                 out.append(_task(s2, cfg, [_U(a)], 4, "pre1+setref<=2/%d" % a, 3 * 6 ** 4,
                                  max_setref=2, setref_menu=[0, 3]))
-    return out
+    return out + _round3(tier, seed)
 
 
 REQUIRED = [
@@ -491,7 +1051,71 @@ REQUIRED = [
     "no_drift_within_factor2_of_threshold",
 ]
 
+# Round-3 families.  Only counters that cannot depend on VERIF_SEED are demanded: they are incremented at
+# fixed positions of every history of the family (the kind of input, the first calls), or inside
+# detect_batch=3 configurations (no bootstrap, hence no random draw anywhere in the history).
+FAMILY_TAGS = ["containers", "dtypes", "shapes", "scale-level", "scale-tiny", "large", "identity", "significance",
+               "subsets", "set_reference", "asymmetric", "multi"]
+REQUIRED += ["fam:%s:updates" % t for t in FAMILY_TAGS]
+REQUIRED += ["fam:%s:drifts_detect_batch3" % t for t in FAMILY_TAGS if t not in ("identity", "subsets")]
+REQUIRED += [
+    "dataframe_batches", "list_batches", "one_dimensional_batches",
+    "integer_batches", "integer_batch_on_fractional_reference", "float32_batches",
+    "constant_feature_steps", "two_row_batches", "two_row_reference_steps", "two_row_batches_reported_drift",
+    "feature_info_names_feature_2",
+    "identity_checks_row_permuted", "identity_checks_proportional",
+    "decisions_with_ge6_bins", "bins:12",
+    "fam:significance:thresholds_with_positive_deviation",
+    "bootstrap_with_2_subsets", "bootstrap_with_more_subsets_than_reference_rows",
+    "set_reference_as_first_call", "set_reference_twice_in_a_row", "set_reference_as_last_call",
+    "set_reference_right_after_a_drift_report",
+    "asymmetric_function_order_matters",
+    "multi_calls_while_another_detector_is_in_use",
+    "multi_t_quantile_same_dof_as_other_detector_with_other_significance",
+]
+
 TIME_BUDGET = {"quick": 1500, "thorough": 3600}
+
+
+def _describe_families(tier):
+    d = 0 if tier == "quick" else 1
+    names = lambda k, idx=None: [x["name"] for i, x in enumerate(FAMS[k]) if idx is None or i in idx]  # noqa: E731
+    return {
+        "containers": {"menus": {"2 features": names("cont2"), "1 feature": names("cont1")},
+                       "what": "DataFrames (integer labels that are not the positions, one with a non-default row index), "
+                       "ndarrays, lists, 1-D arrays and flat lists mixed across one history; initial reference in each container",
+                       "bound": "(4 updates + 2 set_reference, <=1)^%d x 3 configurations (2 features); 5^%d x 3 (1 feature)" % (4 + d, 4 + d)},
+        "dtypes": {"menu": names("dtype2"), "what": "int64 and float32 batches next to float64 ones (fractional values, values "
+                   "2^-30 below a bin edge); steps where float32 binning is legitimately ambiguous are not judged (none occurs)",
+                   "bound": "5^%d x 4 configurations (2 features) + 3 (1 feature)" % (4 + d)},
+        "shapes": {"menus": {"3 features": names("shape3"), "1 feature": names("shape1")},
+                   "what": "3 features for HDDDM; a feature that is constant over reference and batch; every row twice; the "
+                   "reference rows in another order; batches and references of exactly 2 rows",
+                   "bound": "5^%d x 6 configurations (3 features) + 4 (1 feature) + the 2-row reference with detect_batch 1" % (4 + d)},
+        "scales": {"what": "the original batches mapped to x/64 + 2^20 (level ~1e6, spread ~0.05) and to x * 2^-20 (~1e-6)",
+                   "bound": "4^%d x (3 + 1) configurations per scale" % (4 + d)},
+        "large": {"menu": names("large2"), "what": "20..46 rows per batch, initial reference 23 rows: floor(sqrt(n_ref)) runs "
+                  "through 4..14", "bound": "default history of 6 batches, 4 alternatives at every position, <= %d deviations, "
+                  "5 configurations" % (2 + d)},
+        "identity": {"what": "references of 20..40 rows x {H, KL(JS), custom, asymmetric custom}: the reference rows in another "
+                     "order and every row twice, three batches deep (bin fractions k/n, 2k/2n, ... that are not dyadic)",
+                     "bound": "21 sizes x 4 divergences x 2^3"},
+        "significance": {"values": SIG_EXTREMES, "bound": "4 values x detect_batch {1,2,3} x 3^%d over (lo4, shift4, wide9)" % (6 + d)},
+        "subsets": {"values": [2, 12], "what": "2 subsets (a single pair distance: epsilon_0 = 0) and 12 subsets for references "
+                    "of 4..9 rows (no documented upper limit; resampling is with replacement)",
+                    "bound": "detect_batch {1,2} x subsets {2,12} x 6^%d" % (3 + d)},
+        "set_reference": {"bound": "2 default histories of 6 updates x detect_batch {1,2,3} x 2 statistics; set_reference(lo4 / "
+                          "shift9) at <= %d positions, every position (first call, last call, twice in a row, right after a "
+                          "drift report)" % (2 + d)},
+        "asymmetric": {"what": "user function for which f(reference, test) != f(test, reference); symmetry is not demanded, the "
+                       "argument order reference-then-test is; inside the bootstrap pairs either order is accepted",
+                       "bound": "4^%d x 4 configurations" % (4 + d)},
+        "multi": {"detectors": {k: [[s, p["detect_batch"], p["statistic"], p["significance"], p["divergence"]] for s, p in v]
+                                for k, v in MULTI_GROUPS.items()},
+                  "what": "three detectors with different parameters alive in one state, every event is one call on one of them",
+                  "bound": "round-robin history of 15 calls with <= %d deviations over all 12 (detector, batch) events; 9 "
+                  "round-robin calls + (3 detectors x 2 batches)^%d; 2 groups" % (1 + d, 3 + d)},
+    }
 
 
 def describe(tier):
@@ -505,6 +1129,7 @@ def describe(tier):
             "rows": [4, 9],
             "features": {"HDDDM1": 1, "HDDDM2": 2, "CDBD": 1},
             "configurations": len(_combos()),
+            "round3_families": _describe_families(tier),
             "grid": "detect_batch {1,2,3} x (tstat .05, tstat .5, stdev .5, stdev 2) x divergence {H, KL(JS), custom} "
             "x subsets {3,5} (detect_batch 1,2) x initial reference {lo4, lo9} x container {ndarray, DataFrame}",
             "depth": (
@@ -539,5 +1164,12 @@ def describe(tier):
             "of the per-feature growth accept any maximiser",
             "epsilon vs beta within relative 1e-9 or absolute 1e-12 is numerically undecidable and follows the "
             "implementation (counted as near_tie_steered); the all-zero tie 0 > 0 is enforced exactly",
+            "round 3: distances are functions of integer bin counts, so the families at level 2^20 and at scale 2^-20 "
+            "need no wider tolerance (the counts come from the same numpy.histogram call on the same float64 range); "
+            "distance 0 is also demanded for a batch that equals the reference up to row order or up to a common "
+            "multiplicity of every row (the normalised histograms coincide bit for bit); a feature with zero range over "
+            "reference and batch contributes distance 0 whatever the common edges are",
+            "round 3: set_reference of 2 rows / a drift on a 2-row batch with detect_batch=1 raises from the internal proxy "
+            "update on the pinned tree (signature HDM-detect_batch1-two-row-reference, repro and patch under fixes/)",
         ],
     }
